@@ -142,22 +142,26 @@ def predict_contracts(module, cls, E1, EM, stream1, streamM, modifies=('self.rng
 
 
 # ------------------------------------------------------------------------------------- warm start (C13)
-fn('base_mab.BaseMAB.trained_arms', props='C13', pure=True,
+fn('base_mab.BaseMAB.trained_arms', props='C13', pure=True, reads=['self.arms', 'self.arm_to_status'],
    requires=['INV.keys', 'INV.arms'],
    ensures=['[members] forall_arm(lambda a: mem(result, a) == (mem(self.arms, a) and '
             'val(self.arm_to_status, a, "is_trained")))',
-            '[order] distinct(result)'],
+            '[distinct] distinct(result)',
+            '[order] forall_arm(lambda a: forall_arm(lambda b: implies(mem(result, a) and mem(result, b), '
+            '(pos(result, a) < pos(result, b)) == (pos(self.arms, a) < pos(self.arms, b)))))'],
    result='alist')
-fn('base_mab.BaseMAB.cold_arms', props='C13', pure=True,
+fn('base_mab.BaseMAB.cold_arms', props='C13', pure=True, reads=['self.arms', 'self.arm_to_status'],
    requires=['INV.keys', 'INV.arms'],
    # C13: cold_arms lists exactly the arms that are neither observed nor warm-started
    ensures=['[members] forall_arm(lambda a: mem(result, a) == (mem(self.arms, a) and '
             'not val(self.arm_to_status, a, "is_trained") and not val(self.arm_to_status, a, "is_warm")))',
-            '[order] distinct(result)'],
+            '[distinct] distinct(result)',
+            '[order] forall_arm(lambda a: forall_arm(lambda b: implies(mem(result, a) and mem(result, b), '
+            '(pos(result, a) < pos(result, b)) == (pos(self.arms, a) < pos(self.arms, b)))))'],
    result='alist')
 
 DIST = 'fdist(metric, val(arm_to_features, from_arm), val(arm_to_features, a))'
-fn('base_mab.BaseMAB._get_arm_distances', props='C13',
+fn('base_mab.BaseMAB._get_arm_distances', props='C13', pure=True,
    params={'from_arm': 'arm', 'arm_to_features': 'map:rseq', 'metric': 'str', 'self_distance': 'int'},
    requires=['inkeys(arm_to_features, from_arm)', 'distinct(keys(arm_to_features))'],
    raises=['ValueError'],       # feature vectors of different lengths (scipy)
@@ -167,7 +171,7 @@ fn('base_mab.BaseMAB._get_arm_distances', props='C13',
    result='map:real')
 
 PDIST = 'fdist(metric, val(arm_to_features, u), val(arm_to_features, v))'
-fn('base_mab.BaseMAB._get_pairwise_distances', props='C13',
+fn('base_mab.BaseMAB._get_pairwise_distances', props='C13', pure=True,
    params={'arm_to_features': 'map:rseq', 'metric': 'str', 'self_distance': 'int'},
    requires=['distinct(keys(arm_to_features))'],
    raises=['ValueError'],
@@ -179,9 +183,75 @@ fn('base_mab.BaseMAB._get_pairwise_distances', props='C13',
             '(self_distance if (v == u or isnan(%s)) else %s))))' % (PDIST, PDIST)],
    result='map:dict')
 
-fn('base_mab.BaseMAB._get_distance_threshold', props='C13',
+fn('base_mab.BaseMAB._get_distance_threshold', props='C13', pure=True,
    params={'distance_from_to': 'map:dict', 'quantile': 'real', 'self_distance': 'int'},
    requires=['forall_arm(lambda u: implies(inkeys(distance_from_to, u), slen(keys(inner(distance_from_to, u))) > 0))'],
    # the threshold is the q-quantile of a list that depends on the distances only: monotone in q (A4)
    ensures=['[function] result == quantile_of(closest_distances(distance_from_to, self_distance), quantile)'],
    result='real')
+
+TRAINED = 'val(self.arm_to_status, %s, "is_trained")'
+COLD = ('(mem(self.arms, %s) and not val(self.arm_to_status, %s, "is_trained") and '
+        'not val(self.arm_to_status, %s, "is_warm"))')
+PW = 'self._get_pairwise_distances(arm_to_features)'
+D = 'val(inner(%s, %%s), %%s)' % PW
+TH = 'self._get_distance_threshold(%s, distance_quantile)' % PW
+WS_PARAMS = {'arm_to_features': 'map:rseq', 'distance_quantile': 'real'}
+WS_REQ = ['INV.keys', 'INV.arms', 'distinct(keys(arm_to_features))',
+          # MAB.warm_start checks that the feature dictionary covers exactly the arms
+          'forall_arm(lambda a: mem(self.arms, a) == inkeys(arm_to_features, a))']
+fn('base_mab.BaseMAB._get_cold_arm_to_warm_arm', props='C13', pure=True,
+   reads=['self.arms', 'self.arm_to_status'],
+   params=WS_PARAMS, requires=WS_REQ, raises=['ValueError'],
+   ensures=['[keys] distinct(keys(result))',
+            # only cold arms are mapped ...
+            '[domain] forall_arm(lambda c: implies(inkeys(result, c), %s))' % (COLD % ('c', 'c', 'c')),
+            # ... to a trained arm at minimal distance, not farther than the threshold
+            '[image] forall_arm(lambda c: implies(inkeys(result, c), mem(self.arms, val(result, c)) and %s and %s <= %s))'
+            % (TRAINED % 'val(result, c)', D % ('c', 'val(result, c)'), TH),
+            '[closest] forall_arm(lambda c: forall_arm(lambda t: implies(inkeys(result, c) and mem(self.arms, t) and %s, '
+            '%s <= %s)))' % (TRAINED % 't', D % ('c', 'val(result, c)'), D % ('c', 't')),
+            '[ties] forall_arm(lambda c: forall_arm(lambda t: implies(inkeys(result, c) and mem(self.arms, t) and %s and '
+            '%s == %s, pos(self.arms, val(result, c)) <= pos(self.arms, t))))'
+            % (TRAINED % 't', D % ('c', 't'), D % ('c', 'val(result, c)')),
+            # a cold arm is left out only if every trained arm is farther than the threshold
+            '[complete] forall_arm(lambda c: forall_arm(lambda t: implies(%s and not inkeys(result, c) and '
+            'mem(self.arms, t) and %s, %s > %s)))' % (COLD % ('c', 'c', 'c'), TRAINED % 't', D % ('c', 't'), TH)],
+   result='map:arm')
+
+MAPPING = 'old(self._get_cold_arm_to_warm_arm(arm_to_features, distance_quantile))'
+
+
+def warm_start_contracts(module, cls, copied_maps, derived_maps=(), props='C13', inv='INV', copy_extra_ensures=()):
+    """_copy_arms of `cls` and BaseMAB._warm_start with that class as receiver.  copied_maps: per-arm dictionaries
+    copied from the warm arm; derived_maps: dictionaries recomputed afterwards (Softmax)."""
+    allmaps = list(copied_maps) + list(derived_maps)
+    same_c = ' and '.join('val(self.%s, c) == old(val(self.%s, val(cold_arm_to_warm_arm, c)))' % (m, m) for m in copied_maps)
+    same_a = ' and '.join('val(self.%s, a) == old(val(self.%s, a))' % (m, m) for m in copied_maps)
+    fn('%s.%s._copy_arms' % (module, cls), props=props,
+       params={'cold_arm_to_warm_arm': 'map:arm'},
+       requires=['INV.keys', 'INV.arms', 'distinct(keys(cold_arm_to_warm_arm))',
+                 'forall_arm(lambda c: implies(inkeys(cold_arm_to_warm_arm, c), mem(self.arms, c) and '
+                 'mem(self.arms, val(cold_arm_to_warm_arm, c)) and '
+                 'not inkeys(cold_arm_to_warm_arm, val(cold_arm_to_warm_arm, c))))'] +
+       (['slen(self.arms) > 0'] if derived_maps else []),
+       modifies=['self.%s[*]' % m for m in allmaps],
+       ensures=['[C13,copied] forall_arm(lambda c: implies(inkeys(cold_arm_to_warm_arm, c), %s))' % same_c,
+                '[C13,untouched] forall_arm(lambda a: implies(mem(self.arms, a) and not inkeys(cold_arm_to_warm_arm, a), %s))'
+                % same_a] + list(copy_extra_ensures))
+    ws_c = ' and '.join('val(self.%s, c) == old(val(self.%s, val(%s, c)))' % (m, m, MAPPING) for m in copied_maps)
+    fn('base_mab.BaseMAB._warm_start', cls=cls, props=props, params=WS_PARAMS,
+       requires=WS_REQ + [inv, 'slen(self.arms) > 0'], raises=['ValueError'],
+       modifies=['self.%s[*]' % m for m in allmaps] + ['self.arm_to_status[*]'],
+       ensures=[inv,
+                # C13: only cold arms that have a trained arm within the threshold change; they become warm
+                '[C13,status] forall_arm(lambda a: implies(mem(self.arms, a), '
+                'val(self.arm_to_status, a, "is_warm") == (old(val(self.arm_to_status, a, "is_warm")) or inkeys(%s, a)) and '
+                'val(self.arm_to_status, a, "is_trained") == old(val(self.arm_to_status, a, "is_trained")) and '
+                'val(self.arm_to_status, a, "warm_started_by") == (some(val(%s, a)) if inkeys(%s, a) else '
+                'old(val(self.arm_to_status, a, "warm_started_by")))))' % (MAPPING, MAPPING, MAPPING),
+                # ... and receive an exact copy of the learned state of the closest trained arm
+                '[C13,copied] forall_arm(lambda c: implies(inkeys(%s, c), %s))' % (MAPPING, ws_c),
+                # every other arm (in particular every trained arm) is left untouched
+                '[C13,untouched] forall_arm(lambda a: implies(mem(self.arms, a) and not inkeys(%s, a), %s))'
+                % (MAPPING, same_a)])
